@@ -1653,28 +1653,34 @@ std::ostream& expression_t::print(std::ostream& os, bool old) const
         break;
 
     case MITL_FORMULA:
-        os << "MITL: ";
+        os << "Pr ";
         get(0).print(os, old);
         break;
     case MITL_RELEASE:
     case MITL_UNTIL:
-        get(0).print(os, old) << "U[";
-        get(1).print(os, old) << ";";
-        get(2).print(os, old) << "]";
-        get(3).print(os, old);
+        os << "(";
+        get(0).print(os, old) << (get_kind() == MITL_UNTIL ? " U[" : " R[");
+        get(1).print(os, old) << ",";
+        get(2).print(os, old) << "] ";
+        get(3).print(os, old) << ")";
         break;
 
     case MITL_DISJ:
-        get(0).print(os, old) << "\\/";
-        get(1).print(os, old);
-        break;
     case MITL_CONJ:
-        get(0).print(os, old) << "/\\";
-        get(1).print(os, old);
+        // operands that are plain expressions are parenthesised: their operators may bind weaker than && and ||
+        os << "(";
+        for (uint32_t i = 0; i < 2; ++i) {
+            const bool atom = get(i).get_kind() == MITL_ATOM;
+            os << (atom ? "(" : "");
+            get(i).print(os, old) << (atom ? ")" : "");
+            if (i == 0)
+                os << (get_kind() == MITL_DISJ ? " || " : " && ");
+        }
+        os << ")";
         break;
     case MITL_ATOM: get(0).print(os, old); break;
     case MITL_NEXT:
-        os << "X(";
+        os << "(X ";
         get(0).print(os, old) << ")";
         break;
     case SPAWN:
